@@ -163,6 +163,41 @@ example : inNetwork6 (fromNum6 0x20010db8000000000000000000000001) (fromNum6 0x2
     inNetwork6 (fromNum6 0x20010db9000000000000000000000001) (fromNum6 0x20010db8000000000000000000000000) 32 = .ok false := by
   decide +kernel
 
+/-- **Every valid IPv6 text is parsed to the address it denotes.**  For every text `s` of the RFC 4291 §2.2 grammar
+(`denote6 s = some bs`: full form, `::` at any position including the ends, mixed notation with a canonical dotted-quad
+tail, either case, leading zeros up to four digits) the constructor returns exactly `bs` — except for the texts
+characterised by `unsupported6` (a leading or trailing `::` that stands for a single group, i.e. seven explicit groups),
+which it refuses with RuntimeError (`len(segs) > 8`).  Valid input is never mis-parsed. -/
+theorem ip6_parse_spec (s : Str) (bs : Bytes) (h : denote6 s = some bs) :
+    (unsupported6 s = false → parse6 s = .ok bs) ∧ (unsupported6 s = true → parse6 s = .error .runtime) := by
+  have := parse6_denote s bs h
+  constructor
+  · intro hu; rw [this, hu]; rfl
+  · intro hu; rw [this, hu]; rfl
+
+-- the grammar covers the forms it should (non-vacuity), with the bytes they denote
+example : denote6 "2001:DB8::8a2e:0370:7334".toList = some [0x20, 1, 0xd, 0xb8, 0, 0, 0, 0, 0, 0, 0x8a, 0x2e, 3, 0x70, 0x73, 0x34] ∧
+    denote6 "1:2:3::5:6:7:8".toList = some [0, 1, 0, 2, 0, 3, 0, 0, 0, 5, 0, 6, 0, 7, 0, 8] ∧
+    denote6 "::".toList = some [0, 0, 0, 0, 0, 0, 0, 0, 0, 0, 0, 0, 0, 0, 0, 0] ∧
+    denote6 "1::".toList = some [0, 1, 0, 0, 0, 0, 0, 0, 0, 0, 0, 0, 0, 0, 0, 0] ∧
+    denote6 "::FFFF:1.2.3.4".toList = some [0, 0, 0, 0, 0, 0, 0, 0, 0, 0, 0xff, 0xff, 1, 2, 3, 4] ∧
+    denote6 "1:2:3:4:5:6:1.2.3.4".toList = some [0, 1, 0, 2, 0, 3, 0, 4, 0, 5, 0, 6, 1, 2, 3, 4] ∧
+    denote6 "1:2:3:4:5::1.2.3.4".toList = some [0, 1, 0, 2, 0, 3, 0, 4, 0, 5, 0, 0, 1, 2, 3, 4] ∧
+    unsupported6 "1:2:3::5:6:7:8".toList = false ∧ unsupported6 "1:2:3:4:5::1.2.3.4".toList = false := by decide +kernel
+example : denote6 "1:2:3".toList = none ∧ denote6 "1:::2".toList = none ∧ denote6 "::ffff:01.2.3.4".toList = none ∧
+    denote6 "1:2:3:4:5:6:7:8::".toList = none ∧ denote6 "12345::".toList = none := by decide +kernel
+
+/-- the exceptions of `ip6_parse_spec`, one witness per shape: valid texts (they denote an address) that the constructor
+    refuses — trailing `::`, leading `::`, leading `::` with a dotted-quad tail -/
+theorem ip6_unsupported_witnesses :
+    (denote6 "1:2:3:4:5:6:7::".toList = some [0, 1, 0, 2, 0, 3, 0, 4, 0, 5, 0, 6, 0, 7, 0, 0] ∧
+      unsupported6 "1:2:3:4:5:6:7::".toList = true ∧ parse6 "1:2:3:4:5:6:7::".toList = .error .runtime) ∧
+    (denote6 "::2:3:4:5:6:7:8".toList = some [0, 0, 0, 2, 0, 3, 0, 4, 0, 5, 0, 6, 0, 7, 0, 8] ∧
+      unsupported6 "::2:3:4:5:6:7:8".toList = true ∧ parse6 "::2:3:4:5:6:7:8".toList = .error .runtime) ∧
+    (denote6 "::2:3:4:5:6:1.2.3.4".toList = some [0, 0, 0, 2, 0, 3, 0, 4, 0, 5, 0, 6, 1, 2, 3, 4] ∧
+      unsupported6 "::2:3:4:5:6:1.2.3.4".toList = true ∧ parse6 "::2:3:4:5:6:1.2.3.4".toList = .error .runtime) := by
+  decide +kernel
+
 /-- "Malformed input is rejected": whatever the IPv6 constructor accepts is RFC 4291 §2.2 text.  **False for the current
 code** (D15) — kept as the full statement; see `ip6_rejects_defect`. -/
 def ip6_rejects_full : Prop := ∀ (s : Str) (a : Bytes), parse6 s = .ok a → rfc4291 s = true
@@ -210,6 +245,64 @@ theorem ip4_raw_text (b0 b1 b2 b3 : UInt8) :
     (∃ y, IP4.ofText (dotted [b0, b1, b2, b3]) = .ok y ∧ y.raw = [b0, b1, b2, b3]) :=
   ⟨IP4.raw_ofRaw b0 b1 b2 b3, ip4_text_raw b0 b1 b2 b3⟩
 
+/-- **IPv4 text.**  The model's dotted-quad recogniser (a specification: libc's `inet_aton` is outside POX) accepts exactly
+the texts `inet_ntoa` prints — four decimal numbers 0..255 without leading zeros — and `IPAddr(text)` is then the address
+with those four bytes; anything else is OSError. -/
+theorem ip4_parse_spec (s : Str) :
+    (∀ x, IP4.ofText s = .ok x ↔ ∃ b0 b1 b2 b3, s = dotted [b0, b1, b2, b3] ∧ x = ip4OfBytes b0 b1 b2 b3) ∧
+    ((¬ ∃ b0 b1 b2 b3, s = dotted [b0, b1, b2, b3]) → IP4.ofText s = .error .os) := by
+  have key : ∀ bs, inetAton s = .ok bs → ∃ b0 b1 b2 b3, s = dotted [b0, b1, b2, b3] ∧ bs = [b0, b1, b2, b3] := by
+    intro bs h
+    obtain ⟨hl, hs⟩ := (inetAton_iff s bs).mp h
+    obtain ⟨b0, b1, b2, b3, rfl⟩ := list_len4 bs hl
+    exact ⟨b0, b1, b2, b3, hs, rfl⟩
+  constructor
+  · intro x
+    constructor
+    · intro h
+      unfold IP4.ofText at h
+      cases ha : inetAton s with
+      | error e => rw [ha] at h; cases h
+      | ok bs =>
+        obtain ⟨b0, b1, b2, b3, hs, rfl⟩ := key bs ha
+        rw [ha] at h
+        exact ⟨b0, b1, b2, b3, hs, by injection h with h; exact h.symm⟩
+    · intro ⟨b0, b1, b2, b3, hs, hx⟩
+      rw [hs, hx]; exact ip4OfBytes_text b0 b1 b2 b3
+  · intro hn
+    unfold IP4.ofText
+    cases ha : inetAton s with
+    | error e =>
+      have : e = .os := by
+        unfold inetAton at ha
+        split at ha
+        · cases ha
+        · injection ha with ha; exact ha.symm
+      rw [this]; rfl
+    | ok bs =>
+      obtain ⟨b0, b1, b2, b3, hs, _⟩ := key bs ha
+      exact absurd ⟨b0, b1, b2, b3, hs⟩ hn
+
+example : IP4.ofText "192.168.0.1".toList = .ok (ip4OfBytes 192 168 0 1) ∧ IP4.ofText "10.1".toList = .error .os ∧
+    IP4.ofText "010.1.1.1".toList = .error .os ∧ IP4.ofText "1.2.3.256".toList = .error .os := by decide +kernel
+
+/-- **Classful inference.**  `infer_netmask` is the classful prefix length for every address (0 for 0.0.0.0, 8 / 16 / 24
+for classes A / B / C, 32 for D and E), and `parse_cidr("a.b.c.d")` returns that length when the address has no bits
+beyond it, 32 otherwise (and always 32 with `infer=False`); it never raises on a canonical quad. -/
+theorem classful_inference (b0 b1 b2 b3 : UInt8) (infer allowHost : Bool) :
+    inferNetmask (ip4OfBytes b0 b1 b2 b3) = classful (beDec [b0, b1, b2, b3]) ∧
+    parseCidr (dotted [b0, b1, b2, b3]) infer allowHost =
+      .ok (ip4OfBytes b0 b1 b2 b3,
+        if infer && decide (beDec [b0, b1, b2, b3] % 2 ^ (32 - classful (beDec [b0, b1, b2, b3])) = 0)
+        then classful (beDec [b0, b1, b2, b3]) else 32) :=
+  ⟨by rw [inferNetmask_eq, ip4OfBytes_host], parseCidr_plain b0 b1 b2 b3 infer allowHost⟩
+
+example : classful 0 = 0 ∧ classful 0x0a000000 = 8 ∧ classful 0xac100000 = 16 ∧ classful 0xc0a80100 = 24 ∧
+    classful 0xe0000001 = 32 ∧ classful 0xf0000000 = 32 := by decide
+example : parseCidr "192.168.1.0".toList true false = .ok (ip4OfBytes 192 168 1 0, 24) ∧
+    parseCidr "192.168.1.1".toList true false = .ok (ip4OfBytes 192 168 1 1, 32) ∧
+    parseCidr "10.0.0.0".toList false false = .ok (ip4OfBytes 10 0 0 0, 32) := by decide +kernel
+
 example : (IP4.ofInt 0xff000001 false).Valid := IP4.ofInt_valid _ _
 example : (IP4.ofInt 0x7f000001 false).raw = [127, 0, 0, 1] ∧ (IP4.ofInt 0x7f000001 true).raw = [1, 0, 0, 127] ∧
     (IP4.ofInt 0xff000001 false).toSigned false = -16777215 ∧ (IP4.ofInt 0xff000001 false).toSigned true = 16777471 := by
@@ -252,6 +345,22 @@ theorem order_total :
 example : (IP4.ofInt 0x01000000 false).lt (IP4.ofInt 0x00000001 false) = true := by decide   -- order of the stored value, not numeric
 example : bytesLt [0, 1] [0, 2] = true ∧ bytesLt [0, 2] [0, 1, 5] = false := by decide
 
+/-- **Hashing.**  `__hash__` is a function of the stored value (`hash(self._value)`: CPython's int hash for IPAddr, the
+hash `H` of the bytes object — whatever the process salt makes it — for IPAddr6 / EthAddr), so objects that compare equal
+hash equal, on all three address types. -/
+theorem hash_consistent :
+    (∀ a b : IP4, a.eq b = true → a.hash = b.hash) ∧
+    (∀ (H : Bytes → Int) (a b : Bytes), a = b → bytesHash H a = bytesHash H b) ∧
+    (∀ a : IP4, a.Valid → a.hash = if a.value = -1 then -2 else a.value) := by
+  refine ⟨?_, ?_, ?_⟩
+  · intro a b h
+    have : a = b := IP4.ext' (by simpa [IP4.eq] using h)
+    rw [this]
+  · intro H a b h; rw [h]
+  · intro a _; rfl
+
+example : (IP4.ofInt 0xffffffff false).hash = -2 ∧ (IP4.ofInt 0x01020304 false).hash = 67305985 := by decide
+
 /-! ## Ethernet text forms -/
 
 /-- Every textual form the constructor documents parses to the bytes it denotes, for arbitrary hex digits (either case):
@@ -275,6 +384,34 @@ theorem eth_forms :
   intro sep hs h0 l0 h1 l1 h2 l2 h3 l3 h4 l4 h5 l5 H0 L0 H1 L1 H2 L2 H3 L3 H4 L4 H5 L5
   exact ⟨eth_sep_form sep hs _ _ _ _ _ _ _ _ _ _ _ _ H0 L0 H1 L1 H2 L2 H3 L3 H4 L4 H5 L5,
          eth_bare_form _ _ _ _ _ _ _ _ _ _ _ _ H0 L0 H1 L1 H2 L2 H3 L3 H4 L4 H5 L5⟩
+
+/-- **Reference definition.**  Every text that denotes an Ethernet address (`ethDenote`: six raw characters, twelve hex
+digits, `xx:xx:..` / `xx-xx-..`, loose `x:x:..`) is parsed to exactly those bytes, except the loose form of length 12
+(`ethUnsupported`, refused: `eth_loose12_rejected`). -/
+theorem eth_parse_spec (s : Str) (b : Bytes) (h : ethDenote s = some b) (hu : ethUnsupported s = false) :
+    ethOfText s = .ok b :=
+  ethOfText_denote s b h hu
+
+example : ethDenote "01:23:45:67:89:AB".toList = some [0x01, 0x23, 0x45, 0x67, 0x89, 0xab] ∧
+    ethDenote "0123456789ab".toList = some [0x01, 0x23, 0x45, 0x67, 0x89, 0xab] ∧
+    ethDenote "1:2:3:4:5:6".toList = some [1, 2, 3, 4, 5, 6] ∧ ethDenote "1-2-3-4-5-6".toList = none ∧
+    ethDenote "1:2:3:4:5:67".toList = some [1, 2, 3, 4, 5, 0x67] ∧ ethUnsupported "1:2:3:4:5:67".toList = true ∧
+    ethDenote "100:0:0:0:0:0".toList = none := by decide +kernel
+
+/-- The sequence constructors (`EthAddr(list / tuple / bytearray)`, `bytes(addr)`): the elements of any byte list come
+back unchanged; an element outside `range(256)` is ValueError; **the length is not checked** (`eth_seq_length_defect`). -/
+theorem eth_seq (b : Bytes) : ethOfSeq (b.map fun x => (x.toNat : Int)) = .ok b := by
+  induction b with
+  | nil => rfl
+  | cons x xs ih =>
+    have hx := x.toNat_lt
+    unfold ethOfSeq at ih ⊢
+    rw [List.map_cons, List.mapM_cons, ih]
+    have : ¬ ((x.toNat : Int) < 0 ∨ (x.toNat : Int) > 255) := by omega
+    rw [if_neg this]
+    simp [bind, Except.bind, pure, Except.pure]
+
+theorem eth_seq_length_defect : ethOfSeq [1, 2, 3] = .ok [1, 2, 3] ∧ ethOfSeq [1, 2, 3, 4, 5, 256] = .error .value := by decide
 
 example : ethOfText "01:23:45:67:89:AB".toList = .ok [0x01, 0x23, 0x45, 0x67, 0x89, 0xab] := by decide +kernel
 example : ethOfText "1:2:3:4:5:6".toList = .ok [1, 2, 3, 4, 5, 6] := by decide +kernel
